@@ -509,7 +509,11 @@ func (g *gstate) nodes(t *rapid.T, depth int, own string) []Node {
 			m := model.Methods[rapid.IntRange(1, len(model.Methods)-1).Draw(t, "m")]
 			out = append(out, Node{K: "method", Path: routePath(), Methods: []string{m}, H: rapid.IntRange(0, 2).Draw(t, "h"), Spare: spare})
 		case k < 7:
-			m := nonGet[rapid.IntRange(0, len(nonGet)-1).Draw(t, "m")]
+			mpool := nonGet
+			if !g.autoHead {
+				mpool = append([]string{"GET", "HEAD"}, nonGet...) // what Route("GET") means under AutoHead is not stated
+			}
+			m := mpool[rapid.IntRange(0, len(mpool)-1).Draw(t, "m")]
 			if rapid.Bool().Draw(t, "lower") {
 				m = strings.ToLower(m)
 			}
@@ -517,11 +521,15 @@ func (g *gstate) nodes(t *rapid.T, depth int, own string) []Node {
 		case k < 8:
 			out = append(out, Node{K: "any", Path: routePath(), H: rapid.IntRange(0, 2).Draw(t, "h"), Spare: spare})
 		case k < 9:
-			ms := pickDistinct(t, nonGet, rapid.IntRange(1, 3).Draw(t, "nm"))
+			rpool := nonGet
+			if !g.autoHead {
+				rpool = append([]string{"GET", "HEAD"}, nonGet...)
+			}
+			ms := pickDistinct(t, rpool, rapid.IntRange(1, 3).Draw(t, "nm"))
 			if rapid.Bool().Draw(t, "lower") {
 				ms[0] = strings.ToLower(ms[0])
 			}
-			out = append(out, Node{K: "routes", Path: routePath(), Methods: ms, Form: []string{"list", "args"}[rapid.IntRange(0, 1).Draw(t, "form")], H: rapid.IntRange(1, 2).Draw(t, "h"), Spare: spare})
+			out = append(out, Node{K: "routes", Path: routePath(), Methods: ms, Form: []string{"list", "args"}[rapid.IntRange(0, 1).Draw(t, "form")], H: rapid.IntRange(0, 2).Draw(t, "h"), Spare: spare})
 		case k < 11:
 			pool := append([]string{"GET"}, nonGet...)
 			if !g.autoHead {
